@@ -291,7 +291,8 @@ fn check_slot(s: &Slot, step: usize, what: &str) -> Result<Walk, Violation> {
 /// functional mismatch of a returned value (C03's business) ends the case without a verdict.
 pub fn run_case_heap_only(case: &Case) -> CaseResult {
     HEAP_ONLY.with(|h| h.set(true));
-    let r = run_case(case);
+    // (a library panic on the way is C03's business too)
+    let r = vcore::catch(|| run_case(case)).unwrap_or_else(|m| Err(Violation::new("panic", m)));
     HEAP_ONLY.with(|h| h.set(false));
     match r {
         Err(v) if v.sig != "heap-order" => {
